@@ -522,7 +522,7 @@ func (s *c08State) stepDeactivate(via string) M {
 }
 
 // refusals: inputs the builders must refuse because the request would be unacceptable
-var c08Refusals = []string{"equal-commitments", "reused-key", "wrong-hash-algorithm"}
+var c08Refusals = []string{"equal-commitments", "reused-key", "wrong-hash-algorithm", "empty-opaque-document"}
 
 // other malformed inputs (no expectation beyond model = implementation)
 var c08Malformed = []string{"no-signer", "signer-without-alg", "extra-header", "no-key", "no-patches", "opaque-and-patches", "no-suffix", "no-reveal",
@@ -643,6 +643,17 @@ func (s *c08State) spoil(st M, how string) bool {
 		}
 		delete(info, "patches")
 		delete(info, "opaque")
+	case "empty-opaque-document":
+		// a document without content gives a request without patches, which the parser refuses
+		if op != "create" && op != "recover" {
+			return false
+		}
+		delete(info, "patches")
+		info["opaque"] = M{}
+		if op == "recover" {
+			rc, uc := info["rc"].(string), info["uc"].(string)
+			s.sign(s.lastSigner, s.lastHeaders, opb.RecoverSigned(s.code, s.lastSigner, M{"updateCommitment": uc}, rc, s.lastAO, s.lastWindow))
+		}
 	case "opaque-and-patches":
 		if op != "create" && op != "recover" {
 			return false
